@@ -3,35 +3,35 @@
 import json
 
 CLAIMED = {
-    'C05': dict(design='DESIGN.md §3 C05', technique='deterministic simulation: seeded operation histories on version chains (built-in, dict-kept, observable and run-registered custom types) with a steered simulated wall clock and background activity of the process, reference-model oracle, ddmin-minimised replay',
+    'C05': dict(design='DESIGN.md §3 C05', technique='deterministic simulation: seeded operation histories on version chains (built-in, dict-kept, observable and run-registered custom types) with a steered simulated wall clock and background activity of the process (incl. refused registrations), reference-model oracle, ddmin-minimised replay',
                 text='Seeded search over histories of new_version/revoke/marking ops on objects and dicts of every versionable type of both spec versions, with the wall clock steered relative to the previous modified time (earlier, equal, sub-precision later, later; stalled, backward-jumping, coarse clocks). A clean batch is evidence, not proof.',
                 note='Trusts: own integer timestamp parser, hand-written catalog of valid objects, the library serializer as observation channel. Clock seam = STIXdatetime.now; ops that bypass it are counted and stay soundly judged.'),
-    'C11': dict(design='DESIGN.md §3 C11', technique='deterministic simulation with fault injection: seeded add/read histories against MemoryStore and FileSystemStore on a simulated disk (readdir order, disk-owned file time stamps of plan-chosen granularity, EIO/ENOSPC/EACCES on open/write/read/listdir/stat/mkdir, short/torn writes, files vanishing under the reader, process crash + restart), plan-chosen background activity of the process between operations, list-model oracle, ddmin replay',
+    'C11': dict(design='DESIGN.md §3 C11', technique='deterministic simulation with fault injection: seeded add/read histories against MemoryStore and FileSystemStore on a simulated disk (readdir order, disk-owned file time stamps of plan-chosen granularity, EIO/ENOSPC/EACCES on open/write/read/listdir/stat/mkdir, short/torn writes, files vanishing under the reader, stray entries and pre-created skeleton directories, a relative store path under a changing working directory, process crash + restart), plan-chosen background activity of the process between operations, list-model oracle, ddmin replay',
                 text='Seeded search over add histories in every documented input form, reads after every add, save/load and restarts, compared op by op with a plain-list model; a separate faulting batch injects I/O errors, torn writes and crashes inside adds and reads and checks that acknowledged versions are never lost, altered or answered wrongly.',
                 note='Trusts: tmpfs semantics, own timestamp parser and JSON normaliser; completed write()s survive a process crash (no power-loss model); acceptance policy of add() is not judged (a raising add is resolved by observation).'),
-    'C12': dict(design='DESIGN.md §3 C12', technique='deterministic simulation: seeded populations on MemoryStore + FileSystemStore (simulated disk, readdir order) queried through three filter delivery paths, part of the population arriving between the queries, coarse/frozen file time stamps, background activity; independent filter evaluator + model-free conjunction/monotonicity laws; ddmin replay',
-                text='Seeded search over populations and filter sets (all 8 operators, 17 property paths incl. dotted paths, type/id optimiser mixes, hits and near misses), each delivered as query argument, attached to the source, or attached to a composite and passed down, compared with an independent evaluator over the list model; plus model-free laws.',
+    'C12': dict(design='DESIGN.md §3 C12', technique='deterministic simulation: seeded populations on MemoryStore + FileSystemStore (simulated disk, readdir order) queried through three filter delivery paths, part of the population arriving between the queries, coarse/frozen file time stamps, stray directory entries, relative store path + chdir, background activity; independent filter evaluator + model-free conjunction/monotonicity laws; ddmin replay',
+                text='Seeded search over populations and filter sets (all 8 operators, 20 property paths incl. dotted paths through lists of objects and through nested objects to list leaves, type/id optimiser mixes, hits and near misses), each delivered as query argument, attached to the source, or attached to a composite and passed down, compared with an independent evaluator over the list model; plus model-free laws.',
                 note='Trusts: own filter evaluator for the documented semantics; filters are generated only inside the documented semantics (like-typed ordering, != on scalars only, contains/in where element-equality and substring coincide); dict-kept objects only meet canonically spelled ms timestamps.'),
-    'C14': dict(design='DESIGN.md §3 C14', technique='deterministic simulation: seeded entry-point x version x allow_custom x input routing through real stores on a simulated disk, incl. stores that already hold the same (id, modified) from an earlier operation under another version; differential oracle against the direct parser + independent version-class and id-strictness oracles; ddmin replay',
+    'C14': dict(design='DESIGN.md §3 C14', technique='deterministic simulation: seeded entry-point x version x allow_custom x input routing through real stores on a simulated disk, incl. stores that already hold the same (id, modified) from an earlier operation under another version; background activity incl. refused registrations; differential oracle against the direct parser + independent version-class, id-strictness and 2.0-UUIDv4 oracles; ddmin replay',
                 text='Seeded search over every public entry point with a version parameter (parse_observable, memory store/source/sink construction, add, load_from_file, filesystem sink/store add, filesystem source/store get/all_versions/query, Environment.add) x {None,2.0,2.1} x allow_custom x inputs that separate the versions and the id strictness levels.',
                 note='Trusts: stix2.parse called with keyword arguments as the reference for acceptance (the property defines strictness relative to a direct parse); version base classes identify the version; own JSON normaliser.'),
     'C18': dict(design='DESIGN.md §3 C18', technique='deterministic simulation: member sources as nodes, seeded partition of a population and attachment order/attach-detach schedule, navigation through every facade (incl. filters attached through Environment.add_filter and re-attached FilterSets), list-model (union scan) oracle; ddmin replay',
                 text='Seeded search over partitions of a population (overlapping copies, different versions of one id on different members) over 2-4 member sources (MemoryStore, FileSystemStore on the simulated disk, static MemorySource), attachment orders, attach/detach histories and all navigation options, through composite, nested composite, Environment and plain-store facades, compared with a scan of the union.',
                 note='Trusts: own list model and filter evaluator; navigation answers are compared as sets of (id, version); composite filters only on version-constant properties and only for get/all_versions/query (the property does not say whether attached filters apply to navigation).'),
-    'C07': dict(design='DESIGN.md §3 C07', technique='deterministic simulation: seeded marking-operation histories on evolving subjects under a steered simulated clock; set-of-pairs reference model with path-tree ancestry, query-agreement and metamorphic oracles; ddmin replay',
+    'C07': dict(design='DESIGN.md §3 C07', technique='deterministic simulation: seeded marking-operation histories on evolving subjects under a steered simulated clock, marking ids legal in 2.1 only shared with 2.0 subjects; set-of-pairs reference model with path-tree ancestry, query-agreement and metamorphic oracles; ddmin replay',
                 text='Seeded search over histories of add/remove/set/clear (object-level and granular) and get_markings/is_marked (all inherited x descendants x kind-switch combinations) on SDO/SRO objects, plain dicts and marking definitions of both spec versions, with selectors from an own path enumerator (prefix siblings, list indices, nested paths) and marking-ref and language markings.',
                 note='Trusts: the set model is what the property states; selectors that descend into embedded library objects may be refused for object subjects (C08 matter); is_marked is checked for a single marking or None.'),
-    'C13': dict(design='DESIGN.md §3 C13', technique='deterministic simulation: invariant monitor (deep fingerprints of every argument and pooled value before/after) around a seeded mix of 22 kinds of public calls incl. failing calls and calls interrupted by injected I/O faults/crashes; ddmin replay',
+    'C13': dict(design='DESIGN.md §3 C13', technique='deterministic simulation: invariant monitor (deep fingerprints of every argument and pooled value before/after) around a seeded mix of 23 kinds of public calls incl. failing calls, multi-step navigation with caller-held filter lists, and calls interrupted by injected I/O faults/crashes; ddmin replay',
                 text='Seeded search over sequences of public operations (constructors with nested arguments, parse, deepcopy, versioning, markings, bundles, factory defaults, store add/read/save/load on the simulated disk, registration, attribute assignment) on a shared pool of caller-owned containers and library objects; after every call - successful, failing or fault-interrupted - every argument and every pooled value must be value-identical, and deep copies must be equal and disjoint.',
                 note='Trusts: own recursive fingerprint walker (types, key order, values, datetime precision metadata) and serialize() text as the observation of "value-identical".'),
-    'C17': dict(design='DESIGN.md §3 C17', technique='deterministic simulation with fault injection: seeded wrong-kind corruption of valid objects at the data seams (in flight, text/stream, stored files, saved bundles) through 16 entry points, incl. nesting of up to 800 levels and types registered after an earlier parse; error-family oracle with watchdog, registry/store failure-atomicity oracle, member-order metamorphic oracle; ddmin replay',
-                text='Stated scope: corruption as a fault (1-3 wrong-kind or degenerate-empty replacements, key injections or key removals at any depth of a valid object, always JSON-decodable) delivered to parse / constructors / new_version / Bundle / parse_observable and through store add, stored-file read-back and saved-bundle load; the call must terminate and return or raise STIXError/ValueError/TypeError, and after a failing call registries (maps and class-level state of every registered class) equal their snapshot and stores hold nothing from the failed element. Not claimed: "all JSON values", deep nesting (RecursionError, see DESIGN section 8), or that returned objects are fully validated (C02).',
-                note='Trusts: the judged scope rule (store entry points are judged for the error family only when the exception comes out of the parse/construct step); junk ids are ignored by the store atomicity comparison; nesting depth of junk is small.'),
+    'C17': dict(design='DESIGN.md §3 C17', technique='deterministic simulation with fault injection: seeded wrong-kind corruption of valid objects at the data seams (in flight, text/stream, stored files, saved bundles) through 16 entry points, incl. nesting of up to 1400 levels (the limit of what json.loads decodes here), whole stored files replaced by non-object JSON, and types registered after an earlier parse; error-family oracle with watchdog, registry/store failure-atomicity oracle, member-order metamorphic oracle; ddmin replay',
+                text='Stated scope: corruption as a fault (1-3 wrong-kind or degenerate-empty replacements, key injections or key removals at any depth of a valid object, always JSON-decodable) delivered to parse / constructors / new_version / Bundle / parse_observable and through store add, stored-file read-back and saved-bundle load; the call must terminate and return or raise STIXError/ValueError/TypeError, and after a failing call registries (maps and class-level state of every registered class) equal their snapshot and stores hold nothing from the failed element. Not claimed: "all JSON values", or that returned objects are fully validated (C02).',
+                note='Trusts: the judged scope rule (store ADD / load entry points are judged for the error family only when the exception comes out of the parse/construct step; reading a stored file back is always judged); junk ids are ignored by the store atomicity comparison.'),
     'C19': dict(design='DESIGN.md §3 C19', technique='deterministic simulation: process-wide registries as shared state, seeded registration/parse/lookup/use histories, plain-dict reference model compared in full after every op; ddmin replay',
                 text='Seeded search over histories of registrations through the four decorators of both spec versions (fresh, taken, cross-category and rule-breaking names; legal and rule-breaking property lists; the extension_name form) interleaved with parse in strict/custom mode with and without a named version, class_for_type, and construction / round trip / new_version / store traffic of custom instances.',
                 note='Trusts: the naming rules asserted are those in the specification text (type names a-z0-9-, 3-250; 2.1 property names a-z0-9_, 3-250, leading letter; *_ref(s) only on reference properties); unconfirmed rules accept either outcome; objects and observables share one name space.'),
-    'C06': dict(design='DESIGN.md §3 C06', technique='deterministic simulation: environment matrix (interpreter process x PYTHONHASHSEED, uuid4 stream, clock, argument/dictionary order, construction route, other library calls on the same types between constructions) with cross-process id-table comparison; independent RFC 8785 + SHA-1 UUIDv5 exactness oracle; ddmin replay',
-                text='Seeded search over observables of every 2.1 SCO type and two registered custom observables, minted through ten routes (kwargs in three orders, parse of shuffled dict / text, re-serialise without id, deepcopy, bundle member, parse_observable, memory store) under two uuid4 streams and three clocks; runs 4k..4k+3 hold the same items and execute in four interpreters with different PYTHONHASHSEED whose id tables the driver compares.',
+    'C06': dict(design='DESIGN.md §3 C06', technique='deterministic simulation: environment matrix (interpreter process x PYTHONHASHSEED, uuid4 stream, clock, argument/dictionary order, construction route, other library calls on the same types between constructions, caller spellings of non-vocabulary hash algorithms) with cross-process id-table comparison; independent RFC 8785 + SHA-1 UUIDv5 exactness oracle; ddmin replay',
+                text='Seeded search over observables of every 2.1 SCO type and five registered custom observables, minted through ten routes (kwargs in three orders, parse of shuffled dict / text, re-serialise without id, deepcopy, bundle member, parse_observable, memory store) under two uuid4 streams and three clocks; runs 4k..4k+3 hold the same items and execute in four interpreters with different PYTHONHASHSEED whose id tables the driver compares.',
                 note='Trusts: own RFC 8785 writer (checked against the RFC number vectors) and hashlib.sha1; frozen per-type contributing-property lists; "else first" only exercised with a single non-preferred hash; software.languages never generated.'),
 }
 
